@@ -1,3 +1,672 @@
-//! C17 — not yet built
-use crate::ctx::Ctx;
-pub fn run(c: &mut Ctx) { c.notes.push("C17: not implemented".into()); }
+//! C17 — bookmarks become a well-formed outline that reads back.
+//! Generator: random `add_bookmark` sequences (children attached in any order through parent ids)
+//! over documents with 1..n pages; real `adjust_zero_pages` / `build_outline` / `get_toc`.
+//! Correspondence: `c17_build` (all objects build_outline creates + max_id + bookmark pages after
+//! adjust_zero_pages), `c17_toc` (get_toc on the installed document, on the reloaded document and on
+//! mutated outlines), `c17_title` (title bytes + decoding).
+//! Oracle (independent of the model): the abstract forest kept by the harness; a separate walk over
+//! the REAL objects checks First/Last/Next/Prev/Parent/Count/Title/A and id freshness; get_toc must be
+//! the preorder of the forest (titles, levels, page numbers) before and after save_to + load_mem.
+use crate::codec::*;
+use crate::ctx::{guard, Ctx};
+use crate::rng::Rng;
+use lopdf::{Bookmark, Dictionary, Document, Object, ObjectId, StringFormat};
+use serde_json::json;
+use std::collections::{BTreeMap, BTreeSet};
+
+// ---------------------------------------------------------------- abstract forest (oracle side)
+#[derive(Clone, Debug)]
+struct Op { title: String, color: [f32; 3], format: u32, page: ObjectId, parent: Option<u32> }
+
+#[derive(Clone, Debug)]
+struct Node { title: String, color: [f32; 3], format: u32, page: ObjectId, kids: Vec<u32> }
+
+struct Forest { nodes: BTreeMap<u32, Node>, roots: Vec<u32> }
+
+/// what the sequence of add_bookmark calls denotes: children in insertion order under their parent;
+/// a bookmark whose parent id does not exist is stored nowhere reachable.
+fn forest_of(ops: &[Op]) -> Forest {
+    let mut f = Forest { nodes: BTreeMap::new(), roots: vec![] };
+    for (i, op) in ops.iter().enumerate() {
+        let id = (i + 1) as u32;
+        match op.parent {
+            None => f.roots.push(id),
+            Some(p) => { if let Some(n) = f.nodes.get_mut(&p) { n.kids.push(id); } }
+        }
+        f.nodes.insert(id, Node { title: op.title.clone(), color: op.color, format: op.format, page: op.page, kids: vec![] });
+    }
+    f
+}
+impl Forest {
+    fn preorder(&self) -> Vec<(usize, u32)> {
+        fn go(f: &Forest, ids: &[u32], lvl: usize, out: &mut Vec<(usize, u32)>) {
+            for id in ids { out.push((lvl, *id)); go(f, &f.nodes[id].kids, lvl + 1, out); }
+        }
+        let mut out = vec![]; go(self, &self.roots, 1, &mut out); out
+    }
+    fn height(&self) -> usize {
+        fn go(f: &Forest, ids: &[u32]) -> usize { ids.iter().map(|i| 1 + go(f, &f.nodes[i].kids)).max().unwrap_or(0) }
+        go(self, &self.roots)
+    }
+    /// independent statement of adjust_zero_pages: a bookmark with page number 0 and children takes the
+    /// first non-zero (adjusted) page among its children in order, (0,0) when there is none.
+    fn adjust(&mut self) {
+        fn go(f: &mut Forest, id: u32) -> ObjectId {
+            let kids = f.nodes[&id].kids.clone();
+            let mut first_nz = (0u32, 0u16);
+            for k in &kids { let p = go(f, *k); if first_nz.0 == 0 && p.0 != 0 { first_nz = p; } }
+            let n = f.nodes.get_mut(&id).unwrap();
+            if n.page.0 == 0 && !kids.is_empty() { n.page = first_nz; }
+            n.page
+        }
+        for r in self.roots.clone() { go(self, r); }
+    }
+}
+
+// ---------------------------------------------------------------- generators
+fn gen_char(r: &mut Rng, class: u64) -> char {
+    loop {
+        let cp: u32 = match class {
+            0 => 0x20 + r.below(0x5F) as u32,                         // printable ASCII
+            1 => 0xA0 + r.below(0x60) as u32,                         // Latin-1
+            2 => 0x100 + r.below(0xD700) as u32,                      // BMP below the surrogates
+            3 => 0xE000 + r.below(0x2000) as u32,                     // BMP above the surrogates (incl. U+FEFF, U+FFFD..)
+            4 => 0x10000 + r.below(0x100000) as u32,                  // astral planes 1..16
+            _ => *r.pick(&[0x7Fu32, 0x80, 0xFF, 0x100, 0xD7FF, 0xE000, 0xFEFF, 0xFFFE, 0xFFFF, 0x10000, 0x10FFFF, 0x1F600, 0xFE, 0xFF]),
+        };
+        if let Some(c) = char::from_u32(cp) { return c; }
+    }
+}
+fn gen_title(r: &mut Rng, used: &mut BTreeSet<String>) -> String {
+    loop {
+        let len = match r.below(10) { 0 => 0, 1 => 1, 2..=7 => 2 + r.usize(8), _ => 10 + r.usize(30) };
+        let style = r.below(8);
+        let s: String = (0..len).map(|_| {
+            let class = match style { 0 | 1 => 0, 2 => r.below(2), 3 => r.below(4), 4 => 4, 5 => 5, _ => r.below(6) };
+            gen_char(r, class)
+        }).collect();
+        if used.insert(s.clone()) { return s; }
+    }
+}
+const COLORS: [f32; 8] = [0.0, 1.0, 0.5, 0.25, 0.75, 0.125, 0.2, 0.3333];
+
+/// a document with `n` pages in a page tree of random shape; returns (doc, catalog id, pages in order, a non-page id)
+fn build_doc(r: &mut Rng, n_pages: usize) -> (Document, ObjectId, Vec<ObjectId>, ObjectId) {
+    let mut doc = Document::with_version("1.5");
+    let mut next = 0u32;
+    let sparse = r.chance(1, 3);
+    let mut fresh = |r: &mut Rng| { next += 1 + if sparse { r.below(3) as u32 } else { 0 }; (next, 0u16) };
+    let cat = fresh(r);
+    let root = fresh(r);
+    let mut pages = vec![];
+    // group pages under intermediate nodes
+    let mut root_kids: Vec<Object> = vec![];
+    let mut remaining = n_pages;
+    while remaining > 0 {
+        if r.chance(1, 3) && remaining >= 2 {
+            let k = 1 + r.usize(remaining.min(5));
+            let mid = fresh(r);
+            let mut kids = vec![];
+            for _ in 0..k {
+                let p = fresh(r);
+                let mut d = Dictionary::new();
+                d.set("Type", Object::Name(b"Page".to_vec())); d.set("Parent", Object::Reference(mid));
+                doc.objects.insert(p, Object::Dictionary(d)); pages.push(p); kids.push(Object::Reference(p));
+            }
+            let mut d = Dictionary::new();
+            d.set("Type", Object::Name(b"Pages".to_vec())); d.set("Parent", Object::Reference(root));
+            d.set("Count", Object::Integer(k as i64)); d.set("Kids", Object::Array(kids));
+            doc.objects.insert(mid, Object::Dictionary(d));
+            root_kids.push(Object::Reference(mid));
+            remaining -= k;
+        } else {
+            let p = fresh(r);
+            let mut d = Dictionary::new();
+            d.set("Type", Object::Name(b"Page".to_vec())); d.set("Parent", Object::Reference(root));
+            doc.objects.insert(p, Object::Dictionary(d)); pages.push(p); root_kids.push(Object::Reference(p));
+            remaining -= 1;
+        }
+    }
+    let mut d = Dictionary::new();
+    d.set("Type", Object::Name(b"Pages".to_vec())); d.set("Count", Object::Integer(n_pages as i64)); d.set("Kids", Object::Array(root_kids));
+    doc.objects.insert(root, Object::Dictionary(d));
+    let mut c = Dictionary::new();
+    c.set("Type", Object::Name(b"Catalog".to_vec())); c.set("Pages", Object::Reference(root));
+    doc.objects.insert(cat, Object::Dictionary(c));
+    doc.trailer.set("Root", Object::Reference(cat));
+    let other = fresh(r);
+    doc.objects.insert(other, Object::Integer(42));
+    doc.max_id = next + if r.chance(1, 4) { r.below(5) as u32 } else { 0 };
+    (doc, cat, pages, other)
+}
+
+#[derive(Clone, Copy, PartialEq)]
+enum PageMode { Valid, ZeroParents, Foreign }
+
+fn gen_ops(r: &mut Rng, pages: &[ObjectId], other: ObjectId, mode: PageMode, max_nodes: usize, orphans: bool) -> Vec<Op> {
+    let n = 1 + r.usize(max_nodes);
+    let max_depth = 1 + r.usize(6);
+    let max_fan = 1 + r.usize(6);
+    let mut used = BTreeSet::new();
+    let mut depth: BTreeMap<u32, usize> = BTreeMap::new();
+    let mut fan: BTreeMap<u32, usize> = BTreeMap::new();
+    let mut ops = vec![];
+    let attach_bias = 1 + r.below(4);
+    for i in 0..n {
+        let id = (i + 1) as u32;
+        let mut parent = None;
+        if i > 0 && r.chance(attach_bias, 5) {
+            // any earlier bookmark that still has room: children arrive in any interleaving
+            let cands: Vec<u32> = depth.iter().filter(|(p, d)| **d < max_depth && fan.get(p).copied().unwrap_or(0) < max_fan).map(|(p, _)| *p).collect();
+            if !cands.is_empty() { parent = Some(*r.pick(&cands)); }
+        }
+        if orphans && r.chance(1, 12) { parent = Some(id + r.below(3) as u32); } // not (yet) existing id
+        match parent {
+            Some(p) if depth.contains_key(&p) => { depth.insert(id, depth[&p] + 1); *fan.entry(p).or_insert(0) += 1; }
+            Some(_) => {}
+            None => { depth.insert(id, 1); }
+        }
+        let page = match mode {
+            PageMode::Valid => *r.pick(pages),
+            PageMode::ZeroParents => if r.chance(2, 5) { (0, if r.chance(1, 4) { 3 } else { 0 }) } else { *r.pick(pages) },
+            PageMode::Foreign => match r.below(6) { 0 => other, 1 => (9999, 0), 2 => (0, 0), _ => *r.pick(pages) },
+        };
+        ops.push(Op { title: gen_title(r, &mut used), color: [*r.pick(&COLORS), *r.pick(&COLORS), *r.pick(&COLORS)],
+                      format: r.below(4) as u32, page, parent });
+    }
+    ops
+}
+
+fn cps(s: &str) -> String {
+    let v: Vec<String> = s.chars().map(|c| (c as u32).to_string()).collect();
+    if v.is_empty() { "0".into() } else { format!("{} {}", v.len(), v.join(" ")) }
+}
+fn build_request(max_id: u32, adjust: bool, ops: &[Op]) -> String {
+    let mut s = format!("c17_build {} {} {}", max_id, adjust as u8, ops.len());
+    for op in ops {
+        s.push_str(&format!(" {} {} {} {} {} {} {} {}", op.parent.map(|p| p.to_string()).unwrap_or("-".into()), op.page.0, op.page.1,
+            op.format, real_text(op.color[0]), real_text(op.color[1]), real_text(op.color[2]), cps(&op.title)));
+    }
+    s
+}
+fn apply_ops(doc: &mut Document, ops: &[Op]) -> Vec<u32> {
+    ops.iter().map(|op| doc.add_bookmark(Bookmark::new(op.title.clone(), op.color, op.format, op.page), op.parent)).collect()
+}
+fn bm_pages(doc: &Document) -> String {
+    let mut s = String::from("bm");
+    for id in 1..=doc.max_bookmark_id {
+        match doc.bookmark_table.get(&id) { Some(b) => s.push_str(&format!(" {}={}_{}", id, b.page.0, b.page.1)), None => s.push_str(&format!(" {}=?", id)) }
+    }
+    s
+}
+fn toc_request(doc: &Document) -> String {
+    format!("c17_toc {} {}", show_obj(&Object::Dictionary(doc.trailer.clone())), show_objects(doc.objects.iter()))
+}
+fn toc_reply(doc: &Document) -> Result<String, (String, String)> {
+    guard(|| match doc.get_toc() {
+        Ok(t) => {
+            let mut s = format!("ok {}", t.toc.len());
+            for e in &t.toc { s.push_str(&format!(" | {} {} {}", e.level, e.page, cps(&e.title))); }
+            s.push_str(&format!(" errs={}", t.errors.len()));
+            s
+        }
+        Err(_) => "err".into(),
+    })
+}
+
+// ---------------------------------------------------------------- independent link walk over the real objects
+fn dict_of<'a>(doc: &'a Document, id: ObjectId) -> Result<&'a Dictionary, String> {
+    match doc.objects.get(&id) { Some(Object::Dictionary(d)) => Ok(d), o => Err(format!("{:?} is not a dictionary: {:?}", id, o.map(|o| o.enum_variant()))) }
+}
+fn ref_of(d: &Dictionary, key: &str) -> Option<ObjectId> { match d.get(key.as_bytes()) { Ok(Object::Reference(r)) => Some(*r), _ => None } }
+fn decode_title_ref(b: &[u8]) -> Option<String> {
+    if b.len() >= 2 && b[0] == 0xFE && b[1] == 0xFF {
+        if b.len() % 2 != 0 { return None; }
+        let u: Vec<u16> = b[2..].chunks(2).map(|x| u16::from_be_bytes([x[0], x[1]])).collect();
+        String::from_utf16(&u).ok()
+    } else { String::from_utf8(b.to_vec()).ok() }
+}
+struct Walk<'a> { doc: &'a Document, f: &'a Forest, old_max: u32, seen: BTreeSet<ObjectId> }
+impl<'a> Walk<'a> {
+    fn fresh(&mut self, id: ObjectId, what: &str) -> Result<(), String> {
+        if id.0 <= self.old_max || id.1 != 0 { return Err(format!("{} id {:?} is not fresh (old max_id {})", what, id, self.old_max)); }
+        if !self.seen.insert(id) { return Err(format!("{} id {:?} used twice", what, id)); }
+        Ok(())
+    }
+    /// check the children of object `pid` (dictionary `pd`) against the expected bookmark ids `kids`
+    fn children(&mut self, pid: ObjectId, pd: &Dictionary, kids: &[u32], is_root: bool) -> Result<(), String> {
+        if kids.is_empty() {
+            for k in ["First", "Last"] { if pd.has(k.as_bytes()) { return Err(format!("{:?} has {} but no children", pid, k)); } }
+            if !is_root && pd.has(b"Count") { return Err(format!("{:?} has Count but no children", pid)); }
+            return Ok(());
+        }
+        match pd.get(b"Count") { Ok(Object::Integer(c)) if *c == kids.len() as i64 => {}, o => return Err(format!("{:?} Count {:?}, expected {}", pid, o, kids.len())) }
+        // forward chain
+        let mut fwd = vec![];
+        let mut cur = ref_of(pd, "First");
+        while let Some(id) = cur {
+            if fwd.len() > kids.len() { return Err(format!("Next chain under {:?} longer than {}", pid, kids.len())); }
+            fwd.push(id);
+            cur = ref_of(dict_of(self.doc, id)?, "Next");
+        }
+        // backward chain
+        let mut bwd = vec![];
+        let mut cur = ref_of(pd, "Last");
+        while let Some(id) = cur {
+            if bwd.len() > kids.len() { return Err(format!("Prev chain under {:?} longer than {}", pid, kids.len())); }
+            bwd.push(id);
+            cur = ref_of(dict_of(self.doc, id)?, "Prev");
+        }
+        bwd.reverse();
+        if fwd.len() != kids.len() { return Err(format!("{:?}: {} children by First/Next, expected {}", pid, fwd.len(), kids.len())); }
+        if fwd != bwd { return Err(format!("{:?}: First/Next chain {:?} differs from reversed Last/Prev chain {:?}", pid, fwd, bwd)); }
+        for (i, (oid, bid)) in fwd.iter().zip(kids.iter()).enumerate() {
+            let n = &self.f.nodes[bid];
+            self.fresh(*oid, "item")?;
+            let d = dict_of(self.doc, *oid)?;
+            if ref_of(d, "Parent") != Some(pid) { return Err(format!("{:?}: Parent {:?}, expected {:?}", oid, d.get(b"Parent").ok(), pid)); }
+            if i == 0 && d.has(b"Prev") { return Err(format!("{:?}: first sibling has Prev", oid)); }
+            if i > 0 && ref_of(d, "Prev") != Some(fwd[i - 1]) { return Err(format!("{:?}: Prev is not the previous sibling", oid)); }
+            if i + 1 == fwd.len() && d.has(b"Next") { return Err(format!("{:?}: last sibling has Next", oid)); }
+            match d.get(b"Title") {
+                Ok(Object::String(b, StringFormat::Literal)) => {
+                    if decode_title_ref(b).as_deref() != Some(n.title.as_str()) { return Err(format!("{:?}: Title bytes {} do not decode to {:?}", oid, hex(b), n.title)); }
+                }
+                o => return Err(format!("{:?}: Title {:?}", oid, o)),
+            }
+            match d.get(b"F") { Ok(Object::Integer(x)) if *x == n.format as i64 => {}, o => return Err(format!("{:?}: F {:?}", oid, o)) }
+            match d.get(b"C") { Ok(Object::Array(a)) if a.len() == 3 && a.iter().zip(n.color.iter()).all(|(x, y)| matches!(x, Object::Real(v) if v == y)) => {}, o => return Err(format!("{:?}: C {:?}", oid, o)) }
+            let aid = ref_of(d, "A").ok_or(format!("{:?}: no A reference", oid))?;
+            self.fresh(aid, "action")?;
+            let a = dict_of(self.doc, aid)?;
+            if !matches!(a.get(b"S"), Ok(Object::Name(s)) if s == b"GoTo") { return Err(format!("{:?}: action S {:?}", aid, a.get(b"S").ok())); }
+            match a.get(b"D") {
+                Ok(Object::Array(v)) if v.len() == 2 && v[0] == Object::Reference(n.page) && matches!(&v[1], Object::Name(s) if s == b"Fit") => {}
+                o => return Err(format!("{:?}: action D {:?}, expected [{:?} /Fit]", aid, o, n.page)),
+            }
+            self.children(*oid, d, &n.kids, false)?;
+        }
+        Ok(())
+    }
+}
+fn check_links(doc: &Document, before: &BTreeMap<ObjectId, Object>, old_max: u32, root: ObjectId, f: &Forest) -> Result<(), String> {
+    let mut w = Walk { doc, f, old_max, seen: BTreeSet::new() };
+    w.fresh(root, "outline root")?;
+    let rd = dict_of(doc, root)?;
+    w.children(root, rd, &f.roots, true)?;
+    let n = f.preorder().len();
+    if w.seen.len() != 1 + 2 * n { return Err(format!("{} objects reachable, expected {}", w.seen.len(), 1 + 2 * n)); }
+    let new_ids: BTreeSet<ObjectId> = doc.objects.keys().filter(|k| !before.contains_key(k)).cloned().collect();
+    if new_ids != w.seen { return Err(format!("created objects {:?} differ from the reachable outline objects {:?}", new_ids, w.seen)); }
+    for (k, v) in before { if doc.objects.get(k) != Some(v) { return Err(format!("existing object {:?} was changed", k)); } }
+    let mx = w.seen.iter().map(|i| i.0).max().unwrap();
+    if doc.max_id != mx { return Err(format!("max_id {} after build, largest created id {}", doc.max_id, mx)); }
+    Ok(())
+}
+
+fn expected_toc(f: &Forest, pages: &[ObjectId]) -> Vec<(usize, String, usize)> {
+    let mut out = vec![];
+    for (lvl, id) in f.preorder() {
+        let n = &f.nodes[&id];
+        // page number = position in the page tree (last position if listed twice)
+        if let Some(pos) = pages.iter().rposition(|p| *p == n.page) { out.push((lvl, n.title.clone(), pos + 1)); }
+    }
+    out
+}
+fn toc_of(doc: &Document) -> Result<Result<(Vec<(usize, String, usize)>, usize), String>, (String, String)> {
+    guard(|| doc.get_toc().map(|t| (t.toc.iter().map(|e| (e.level, e.title.clone(), e.page)).collect(), t.errors.len())).map_err(|e| e.to_string()))
+}
+
+fn case_json(max_id: u32, adjust: bool, ops: &[Op], n_pages: usize) -> serde_json::Value {
+    json!({"old_max_id": max_id, "adjust_zero_pages": adjust, "pages": n_pages,
+           "ops": ops.iter().map(|o| json!({"title": o.title, "parent": o.parent, "page": format!("{:?}", o.page)})).collect::<Vec<_>>()})
+}
+
+/// one full scenario on the real code; `stream` names the generator
+fn scenario(c: &mut Ctx, r: &mut Rng, mode: PageMode, max_nodes: usize, orphans: bool, stream: &str) {
+    let big = r.chance(1, 5);
+    let n_pages = 1 + r.usize(if big { 40 } else { 8 });
+    let (mut doc, cat, pages, other) = build_doc(r, n_pages);
+    let ops = gen_ops(r, &pages, other, mode, max_nodes, orphans);
+    let adjust = mode == PageMode::ZeroParents || r.chance(1, 3);
+    let old_max = doc.max_id;
+    let before = doc.objects.clone();
+    let mut f = forest_of(&ops);
+    let cj = case_json(old_max, adjust, &ops, n_pages);
+    let req = build_request(old_max, adjust, &ops);
+    c.count(&format!("{}.cases", stream));
+    c.count_n(&format!("{}.bookmarks", stream), ops.len() as u64);
+    if f.preorder().len() >= 2 { c.nontrivial(&req); }
+    if f.height() >= 4 { c.count("forest.height_ge_4"); }
+    if ops.iter().any(|o| !o.title.is_ascii()) { c.count("titles.some_non_ascii"); }
+    if ops.iter().any(|o| o.title.chars().any(|ch| ch as u32 >= 0x10000)) { c.count("titles.some_astral"); }
+    if f.preorder().len() < ops.len() { c.count("forest.has_orphans"); }
+    // children arriving after a younger sibling subtree was started = "any order"
+    if ops.iter().enumerate().any(|(i, o)| o.parent.map(|p| (p as usize) < i).unwrap_or(false)) { c.count("forest.interleaved_attach"); }
+
+    let res = guard(|| {
+        let ids = apply_ops(&mut doc, &ops);
+        if adjust { doc.adjust_zero_pages(); }
+        let bm = bm_pages(&doc);
+        let root = doc.build_outline();
+        (ids, bm, root)
+    });
+    let (ids, bm, root) = match res {
+        Ok(x) => x,
+        Err((site, msg)) => { c.oracle_fail(&format!("panic@{}", site), &msg, cj); return; }
+    };
+    if ids != (1..=ops.len() as u32).collect::<Vec<_>>() {
+        c.oracle_fail("bookmark-ids", "add_bookmark did not return 1..n", cj.clone());
+    }
+    // ---- correspondence: everything build_outline created
+    let created: Vec<(&ObjectId, &Object)> = doc.objects.iter().filter(|(k, _)| !before.contains_key(k)).collect();
+    let reply = match root {
+        Some(rt) => format!("ok R{}_{} {} rep=1 {} objs {}", rt.0, rt.1, doc.max_id, bm, show_objects(created.into_iter())),
+        None => format!("ok none {} rep=1 {} objs 0", doc.max_id, bm),
+    };
+    c.corr(req.clone(), reply);
+    // ---- oracle: adjust_zero_pages
+    if adjust {
+        f.adjust();
+        for (id, n) in &f.nodes {
+            // unreachable bookmarks are never visited by adjust_zero_pages
+            let got = doc.bookmark_table.get(id).map(|b| b.page);
+            if got != Some(n.page) && f.preorder().iter().any(|(_, i)| i == id) {
+                c.oracle_fail("adjust-zero-pages", &format!("bookmark {} has page {:?} after adjust_zero_pages, expected {:?}", id, got, n.page), cj.clone());
+                break;
+            }
+        }
+    }
+    let Some(root) = root else {
+        if !f.roots.is_empty() { c.oracle_fail("no-outline", "build_outline returned None for a non-empty forest", cj); }
+        else { c.count("build.none_for_empty_forest"); }
+        return;
+    };
+    // ---- oracle: link consistency by an independent walk
+    if let Err(e) = check_links(&doc, &before, old_max, root, &f) {
+        c.oracle_fail("links", &e, cj.clone());
+        return;
+    }
+    c.count("links.checked");
+    // ---- install and read back
+    if let Ok(Object::Dictionary(d)) = doc.get_object_mut(cat) { d.set("Outlines", Object::Reference(root)); }
+    let expected = expected_toc(&f, &pages);
+    let all_listed = expected.len() == f.preorder().len();
+    if all_listed { c.count("toc.all_targets_are_pages"); } else { c.count("toc.some_targets_not_pages"); }
+    match toc_reply(&doc) {
+        Ok(rep) => c.corr(toc_request(&doc), rep),
+        Err((site, msg)) => { c.oracle_fail(&format!("panic@{}", site), &msg, cj.clone()); return; }
+    }
+    match toc_of(&doc) {
+        Ok(Ok((toc, nerr))) => {
+            if toc != expected || nerr != 0 {
+                c.oracle_fail("toc-readback", "get_toc differs from the preorder of the bookmark forest",
+                    json!({"case": cj, "expected": format!("{:?}", expected), "actual": format!("{:?}", toc), "errors": nerr}));
+                return;
+            }
+        }
+        Ok(Err(e)) => { c.oracle_fail("toc-error", &e, cj.clone()); return; }
+        Err((site, msg)) => { c.oracle_fail(&format!("panic@{}", site), &msg, cj.clone()); return; }
+    }
+    c.count("toc.readback_ok");
+    // ---- after save_to + load_mem
+    let mut buf = Vec::new();
+    let reloaded = guard(|| { doc.save_to(&mut buf).map_err(|e| e.to_string())?; Document::load_mem(&buf).map_err(|e| e.to_string()) });
+    match reloaded {
+        Ok(Ok(d2)) => {
+            match toc_of(&d2) {
+                Ok(Ok((toc, nerr))) => {
+                    if toc != expected || nerr != 0 {
+                        c.oracle_fail("toc-readback-reload", "get_toc after save_to + load_mem differs from the preorder of the bookmark forest",
+                            json!({"case": cj, "expected": format!("{:?}", expected), "actual": format!("{:?}", toc), "errors": nerr}));
+                        return;
+                    }
+                    c.count("toc.readback_after_reload_ok");
+                    if r.chance(1, 4) { if let Ok(rep) = toc_reply(&d2) { c.corr(toc_request(&d2), rep); c.count("toc.corr_on_reloaded"); } }
+                }
+                Ok(Err(e)) => c.oracle_fail("toc-error-reload", &e, cj.clone()),
+                Err((site, msg)) => c.oracle_fail(&format!("panic@{}", site), &msg, cj.clone()),
+            }
+        }
+        Ok(Err(e)) => c.oracle_fail("save-load", &e, cj.clone()),
+        Err((site, msg)) => c.oracle_fail(&format!("panic@{}", site), &msg, cj.clone()),
+    }
+    c.sample(json!({"stream": stream, "bookmarks": ops.len(), "height": f.height(), "pages": n_pages,
+                    "titles": ops.iter().take(4).map(|o| o.title.clone()).collect::<Vec<_>>() }));
+}
+
+// ---------------------------------------------------------------- reader stream: mutated outlines (no cycles)
+fn mutate_outline(r: &mut Rng, doc: &mut Document, created: &[ObjectId], cat: ObjectId, other: ObjectId, c: &mut Ctx) {
+    let items: Vec<ObjectId> = created.iter().filter(|id| matches!(doc.objects.get(id), Some(Object::Dictionary(d)) if d.has(b"Title"))).cloned().collect();
+    let actions: Vec<ObjectId> = created.iter().filter(|id| matches!(doc.objects.get(id), Some(Object::Dictionary(d)) if d.has(b"S"))).cloned().collect();
+    if items.is_empty() { return; }
+    let fresh_id = (doc.objects.keys().map(|k| k.0).max().unwrap() + 1, 0u16);
+    let n_mut = 1 + r.usize(3);
+    for m in 0..n_mut {
+        let it = *r.pick(&items);
+        let ac = *r.pick(&actions);
+        let extra = (fresh_id.0 + m as u32, 0u16);
+        let kind = r.below(20);
+        let key = format!("mut.{:02}", kind);
+        c.count(&key);
+        match kind {
+            0 => { if let Some(Object::Dictionary(d)) = doc.objects.get_mut(&it) { d.remove(b"Title"); } }
+            1 => { // Title behind a reference to a string
+                let t = if let Some(Object::Dictionary(d)) = doc.objects.get(&it) { d.get(b"Title").ok().cloned() } else { None };
+                if let Some(t) = t { doc.objects.insert(extra, t); if let Some(Object::Dictionary(d)) = doc.objects.get_mut(&it) { d.set("Title", Object::Reference(extra)); } }
+            }
+            2 => { if let Some(Object::Dictionary(d)) = doc.objects.get_mut(&it) { d.set("Title", Object::Reference(other)); } }  // reference to an integer -> get_toc Err
+            3 => { if let Some(Object::Dictionary(d)) = doc.objects.get_mut(&it) { d.set("Title", Object::Integer(3)); } }
+            4 => { // Dest instead of A
+                let dst = if let Some(Object::Dictionary(a)) = doc.objects.get(&ac) { a.get(b"D").ok().cloned() } else { None };
+                if let (Some(dst), Some(Object::Dictionary(d))) = (dst, doc.objects.get_mut(&it)) { d.remove(b"A"); d.set("Dest", dst); }
+            }
+            5 => { if let Some(Object::Dictionary(a)) = doc.objects.get_mut(&ac) { a.set("D", Object::string_literal("named")); } }
+            6 => { if let Some(Object::Dictionary(a)) = doc.objects.get_mut(&ac) { a.set("S", Object::Name(b"URI".to_vec())); } }
+            7 => { if let Some(Object::Dictionary(a)) = doc.objects.get_mut(&ac) { a.set("S", Object::Name(b"GoToR".to_vec())); } }
+            8 => { if let Some(Object::Dictionary(d)) = doc.objects.get_mut(&it) { d.set("Next", Object::Reference((77777, 0))); } }   // dangling: loop ends
+            9 => { if let Some(Object::Dictionary(d)) = doc.objects.get_mut(&it) { d.set("First", Object::Reference((77777, 0))); } }  // dangling First: Err
+            10 => { if let Some(Object::Dictionary(d)) = doc.objects.get_mut(&it) { d.set("First", Object::Integer(1)); } }
+            11 => { // LE byte-order mark
+                if let Some(Object::Dictionary(d)) = doc.objects.get_mut(&it) {
+                    let s: String = (0..1 + r.usize(5)).map(|_| { let cl = r.below(6); gen_char(r, cl) }).collect();
+                    let mut b = vec![0xFF, 0xFE]; for u in s.encode_utf16() { b.extend(u.to_le_bytes()); }
+                    d.set("Title", Object::string_literal(b));
+                }
+            }
+            12 => { // odd length behind a byte-order mark
+                if let Some(Object::Dictionary(d)) = doc.objects.get_mut(&it) {
+                    let mut b = if r.chance(1, 2) { vec![0xFE, 0xFF] } else { vec![0xFF, 0xFE] };
+                    for _ in 0..(1 + 2 * r.usize(4)) { b.push(0x20 + r.below(0x50) as u8); }
+                    d.set("Title", Object::string_literal(b));
+                }
+            }
+            13 => { // unpaired / swapped surrogates
+                if let Some(Object::Dictionary(d)) = doc.objects.get_mut(&it) {
+                    let mut b = vec![0xFE, 0xFF];
+                    for _ in 0..(1 + r.usize(6)) {
+                        let u: u16 = match r.below(4) { 0 => 0xD800 + r.below(0x400) as u16, 1 => 0xDC00 + r.below(0x400) as u16, 2 => 0x41 + r.below(20) as u16, _ => r.next() as u16 };
+                        b.extend(u.to_be_bytes());
+                    }
+                    d.set("Title", Object::string_literal(b));
+                }
+            }
+            14 => { if let Some(Object::Dictionary(a)) = doc.objects.get_mut(&ac) { a.set("D", Object::Array(vec![Object::Integer(2), Object::Name(b"Fit".to_vec())])); } } // page not a reference -> Err
+            15 => { // duplicate an existing title
+                let t = if let Some(Object::Dictionary(d)) = doc.objects.get(r.pick(&items)) { d.get(b"Title").ok().cloned() } else { None };
+                if let (Some(t), Some(Object::Dictionary(d))) = (t, doc.objects.get_mut(&it)) { d.set("Title", t); }
+            }
+            16 => { // destination behind a reference
+                let dst = if let Some(Object::Dictionary(a)) = doc.objects.get(&ac) { a.get(b"D").ok().cloned() } else { None };
+                if let Some(dst) = dst { doc.objects.insert(extra, dst); if let Some(Object::Dictionary(a)) = doc.objects.get_mut(&ac) { a.set("D", Object::Reference(extra)); } }
+            }
+            17 => { if let Some(Object::Dictionary(d)) = doc.objects.get_mut(&cat) { if r.chance(1, 2) { d.remove(b"Outlines"); } else { d.set("Outlines", Object::Integer(0)); } } }
+            18 => { // action dictionary held directly
+                let a = doc.objects.get(&ac).cloned();
+                if let (Some(a), Some(Object::Dictionary(d))) = (a, doc.objects.get_mut(&it)) { if ref_of(d, "A") == Some(ac) { d.set("A", a); } }
+            }
+            _ => { if let Some(Object::Dictionary(d)) = doc.objects.get_mut(&it) { d.remove(b"Next"); } }  // chain cut
+        }
+    }
+}
+
+fn reader_case(c: &mut Ctx, r: &mut Rng) {
+    let n_pages = 1 + r.usize(6);
+    let (mut doc, cat, pages, other) = build_doc(r, n_pages);
+    let ops = gen_ops(r, &pages, other, PageMode::Foreign, 14, false);
+    let before: BTreeSet<ObjectId> = doc.objects.keys().cloned().collect();
+    apply_ops(&mut doc, &ops);
+    let Some(root) = doc.build_outline() else { return };
+    if let Ok(Object::Dictionary(d)) = doc.get_object_mut(cat) { d.set("Outlines", Object::Reference(root)); }
+    let created: Vec<ObjectId> = doc.objects.keys().filter(|k| !before.contains(k)).cloned().collect();
+    mutate_outline(r, &mut doc, &created, cat, other, c);
+    let req = toc_request(&doc);
+    c.nontrivial(&req);
+    c.count("reader.cases");
+    match toc_reply(&doc) {
+        Ok(rep) => { if rep == "err" { c.count("reader.err"); } else { c.count("reader.ok"); } c.corr(req, rep); }
+        Err((site, msg)) => c.oracle_fail(&format!("panic@{}", site), &msg, json!({"request": req})),
+    }
+}
+
+pub fn run(c: &mut Ctx) {
+    c.rule = "random add_bookmark sequences (1..40 bookmarks, depth<=6, fan-out<=6, children attached to any earlier bookmark in any \
+interleaving, occasionally to a not-existing id; pairwise distinct titles from ASCII / Latin-1 / BMP / astral planes and boundary code points; \
+pages = any page of a 1..40-page document with a nested page tree; zero-page parents + adjust_zero_pages; targets that are no pages in a \
+separate stream) run through the real add_bookmark/adjust_zero_pages/build_outline/get_toc/save_to/load_mem; mutated outlines (no cycles) \
+for the readers. Non-trivial = forest with >= 2 reachable bookmarks (distinct by request text) or a mutated outline.".into();
+
+    let n = c.n(300, 12000);
+    for i in 0..n {
+        let Some(mut r) = c.case("valid", i) else { continue };
+        scenario(c, &mut r, PageMode::Valid, if i % 7 == 0 { 40 } else { 16 }, true, "valid");
+    }
+    let n = c.n(150, 6000);
+    for i in 0..n {
+        let Some(mut r) = c.case("zero", i) else { continue };
+        scenario(c, &mut r, PageMode::ZeroParents, 20, false, "zero");
+    }
+    let n = c.n(100, 4000);
+    for i in 0..n {
+        let Some(mut r) = c.case("foreign", i) else { continue };
+        scenario(c, &mut r, PageMode::Foreign, 16, true, "foreign");
+    }
+    // deep chains and wide fans beyond the generator's usual bounds (the theorems have no bound)
+    for (i, (depth, fan)) in [(30usize, 1usize), (1, 60), (12, 3), (60, 2)].iter().enumerate() {
+        let Some(mut r) = c.case("shape", i as u64) else { continue };
+        shape_case(c, &mut r, *depth, *fan);
+    }
+    let n = c.n(300, 12000);
+    for i in 0..n {
+        let Some(mut r) = c.case("reader", i) else { continue };
+        reader_case(c, &mut r);
+    }
+    // title encoding on its own: every class of code point, incl. C0 controls
+    let n = c.n(300, 5000);
+    for i in 0..n {
+        let Some(mut r) = c.case("title", i) else { continue };
+        title_case(c, &mut r, i);
+    }
+    witnesses(c);
+}
+
+/// a chain of `depth` levels, each level with `fan` bookmarks, the last of which carries the next level
+fn shape_case(c: &mut Ctx, r: &mut Rng, depth: usize, fan: usize) {
+    let (mut doc, cat, pages, _other) = build_doc(r, 3);
+    let mut ops = vec![];
+    let mut parent = None;
+    let mut k = 0;
+    for _ in 0..depth {
+        for _ in 0..fan {
+            k += 1;
+            ops.push(Op { title: format!("t{}", k), color: [0.0, 0.5, 1.0], format: 0, page: *r.pick(&pages), parent });
+        }
+        parent = Some(k as u32);
+    }
+    let old_max = doc.max_id;
+    let before = doc.objects.clone();
+    let f = forest_of(&ops);
+    let req = build_request(old_max, false, &ops);
+    c.nontrivial(&req);
+    c.count("shape.cases");
+    let cj = json!({"depth": depth, "fan": fan});
+    let root = match guard(|| { apply_ops(&mut doc, &ops); doc.build_outline() }) {
+        Ok(Some(r)) => r,
+        Ok(None) => { c.oracle_fail("no-outline", "None", cj); return; }
+        Err((site, msg)) => { c.oracle_fail(&format!("panic@{}", site), &msg, cj); return; }
+    };
+    let created: Vec<(&ObjectId, &Object)> = doc.objects.iter().filter(|(k, _)| !before.contains_key(k)).collect();
+    c.corr(req, format!("ok R{}_{} {} rep=1 {} objs {}", root.0, root.1, doc.max_id, bm_pages(&doc), show_objects(created.into_iter())));
+    if let Err(e) = check_links(&doc, &before, old_max, root, &f) { c.oracle_fail("links", &e, cj.clone()); return; }
+    if let Ok(Object::Dictionary(d)) = doc.get_object_mut(cat) { d.set("Outlines", Object::Reference(root)); }
+    let expected = expected_toc(&f, &pages);
+    match toc_of(&doc) {
+        Ok(Ok((toc, 0))) if toc == expected => c.count("shape.readback_ok"),
+        other => c.oracle_fail("toc-readback", "deep/wide forest does not read back", json!({"case": cj, "actual": format!("{:?}", other.map(|x| x.map(|y| y.0.len())))})),
+    }
+    if let Ok(rep) = toc_reply(&doc) { c.corr(toc_request(&doc), rep); }
+}
+
+fn title_case(c: &mut Ctx, r: &mut Rng, i: u64) {
+    let len = if i < 40 { (i % 4) as usize } else { r.usize(24) };
+    let with_c0 = r.chance(1, 4);
+    let ascii_only = r.chance(1, 3);
+    let s: String = (0..len).map(|_| if ascii_only && !with_c0 { gen_char(r, 0) } else if with_c0 && r.chance(1, 3) { char::from_u32(r.below(0x20) as u32).unwrap() } else { { let cl = r.below(6); gen_char(r, cl) } }).collect();
+    if with_c0 { c.count("title.with_c0_controls"); }
+    if s.is_ascii() { c.count("title.ascii"); } else { c.count("title.utf16"); }
+    let mut doc = Document::with_version("1.5");
+    let mut p = Dictionary::new(); p.set("Type", Object::Name(b"Page".to_vec())); p.set("Parent", Object::Reference((2, 0)));
+    doc.objects.insert((3, 0), Object::Dictionary(p));
+    let mut ps = Dictionary::new(); ps.set("Type", Object::Name(b"Pages".to_vec())); ps.set("Count", Object::Integer(1)); ps.set("Kids", Object::Array(vec![Object::Reference((3, 0))]));
+    doc.objects.insert((2, 0), Object::Dictionary(ps));
+    let mut cat = Dictionary::new(); cat.set("Type", Object::Name(b"Catalog".to_vec())); cat.set("Pages", Object::Reference((2, 0)));
+    doc.objects.insert((1, 0), Object::Dictionary(cat));
+    doc.trailer.set("Root", Object::Reference((1, 0)));
+    doc.max_id = 3;
+    doc.add_bookmark(Bookmark::new(s.clone(), [0.0, 0.0, 0.0], 0, (3, 0)), None);
+    let root = doc.build_outline().unwrap();
+    if let Ok(Object::Dictionary(d)) = doc.get_object_mut((1, 0)) { d.set("Outlines", Object::Reference(root)); }
+    let bytes = match doc.objects.get(&(5, 0)) { Some(Object::Dictionary(d)) => d.get(b"Title").ok().and_then(|t| t.as_str().ok()).map(|b| b.to_vec()), _ => None };
+    let Some(bytes) = bytes else { c.oracle_fail("title-missing", "no Title on the built item", json!({"title": s})); return };
+    let back = toc_of(&doc);
+    let decoded = match &back { Ok(Ok((t, _))) if t.len() == 1 => Some(t[0].1.clone()), _ => None };
+    c.corr(format!("c17_title {}", cps(&s)), format!("ok {} {}", hex_tok(&bytes), decoded.as_deref().map(cps).unwrap_or("?".into())));
+    if decoded.as_deref() != Some(s.as_str()) {
+        c.oracle_fail("title-roundtrip", "title does not read back", json!({"title": s, "bytes": hex(&bytes), "decoded": decoded}));
+    }
+    // and through a file
+    let mut buf = Vec::new();
+    if let Ok(Ok(d2)) = guard(|| { doc.save_to(&mut buf).map_err(|e| e.to_string())?; Document::load_mem(&buf).map_err(|e| e.to_string()) }) {
+        match toc_of(&d2) {
+            Ok(Ok((t, _))) if t.len() == 1 && t[0].1 == s => c.count("title.reload_ok"),
+            other => c.oracle_fail(if with_c0 { "title-roundtrip-reload-c0" } else { "title-roundtrip-reload" }, "title does not read back after save_to + load_mem",
+                json!({"title": s, "bytes": hex(&bytes), "got": format!("{:?}", other)})),
+        }
+    } else { c.oracle_fail("save-load", "save_to/load_mem failed", json!({"title": s})); }
+}
+
+fn witnesses(c: &mut Ctx) {
+    // F-C17-a: two bookmarks with the same title: get_toc keys its intermediate table by title
+    let Some(_r) = c.case("witness", 0) else { return };
+    let mut doc = Document::with_version("1.5");
+    let mut ps = Dictionary::new(); ps.set("Type", Object::Name(b"Pages".to_vec())); ps.set("Count", Object::Integer(2));
+    ps.set("Kids", Object::Array(vec![Object::Reference((3, 0)), Object::Reference((4, 0))]));
+    doc.objects.insert((2, 0), Object::Dictionary(ps));
+    for id in [3u32, 4] { let mut p = Dictionary::new(); p.set("Type", Object::Name(b"Page".to_vec())); p.set("Parent", Object::Reference((2, 0))); doc.objects.insert((id, 0), Object::Dictionary(p)); }
+    let mut cat = Dictionary::new(); cat.set("Type", Object::Name(b"Catalog".to_vec())); cat.set("Pages", Object::Reference((2, 0)));
+    doc.objects.insert((1, 0), Object::Dictionary(cat));
+    doc.trailer.set("Root", Object::Reference((1, 0)));
+    doc.max_id = 4;
+    let a = doc.add_bookmark(Bookmark::new("Part I".into(), [0.0; 3], 0, (3, 0)), None);
+    doc.add_bookmark(Bookmark::new("Introduction".into(), [0.0; 3], 0, (3, 0)), Some(a));
+    let b = doc.add_bookmark(Bookmark::new("Part II".into(), [0.0; 3], 0, (4, 0)), None);
+    doc.add_bookmark(Bookmark::new("Introduction".into(), [0.0; 3], 0, (4, 0)), Some(b));
+    let root = doc.build_outline().unwrap();
+    if let Ok(Object::Dictionary(d)) = doc.get_object_mut((1, 0)) { d.set("Outlines", Object::Reference(root)); }
+    let got = toc_of(&doc);
+    let expected: Vec<(usize, String, usize)> = vec![(1, "Part I".into(), 1), (2, "Introduction".into(), 1), (1, "Part II".into(), 2), (2, "Introduction".into(), 2)];
+    let reproduced = !matches!(&got, Ok(Ok((t, _))) if *t == expected);
+    // Outside C17's quantifier (pairwise distinct titles): recorded as an observation, not a finding.
+    if reproduced { c.count("observation.duplicate_titles_collapse_in_get_toc"); }
+    if let Ok(rep) = toc_reply(&doc) { c.corr(toc_request(&doc), rep); }
+}
